@@ -42,9 +42,11 @@ def jobs(tier, seed):
     out = [{"name": "array-caches", "kind": "arrays", "cost": 20}]
     for kern in ("semi", "fully"):
         for clear in (False, True):
-            for n in ((2,) if tier == "quick" else (2, 3)):
-                out.append({"name": f"two-updates-{kern}-clear{int(clear)}-n{n}", "kind": "sampler", "kernel": kern, "clear": clear, "n": n,
-                            "cost": 60 * n ** 3})
+            # two successive updates square the path count: n = 3 is out of reach (probed: > 25 min for one job); the thorough
+            # tier explores every start forest at n = 2 and adds resampling (threshold 1)
+            for thr in (("0",) if tier == "quick" else ("0", "1")):
+                out.append({"name": f"two-updates-{kern}-clear{int(clear)}-n2-thr{thr}", "kind": "sampler", "kernel": kern, "clear": clear, "n": 2,
+                            "thr": thr, "all_starts": tier == "thorough", "cost": 60 * 8})
     out.append({"name": "canary-proposal_cache_key_without_alpha", "canary": "proposal_cache_key_without_alpha", "kind": "sampler", "kernel": "semi",
                 "clear": False, "n": 2, "cost": 60})
     out.append({"name": "canary-two_array_key_uses_first_only", "canary": "two_array_key_uses_first_only", "kind": "arrays", "cost": 20})
@@ -257,7 +259,7 @@ def work(job):
     res["twin_ok"] = res["calls"] > 0 and res["hits"] > 0
     res["status"] = "cex" if res["cex"] else "ok"
     for c in res["cex"]:
-        c.update({"finding_key": f"C14:{job['kind']}:{c['kind']}", "job": {k: job.get(k) for k in ("kind", "kernel", "clear", "n")}})
+        c.update({"finding_key": f"C14:{job['kind']}:{c['kind']}", "job": {k: job.get(k) for k in ("kind", "kernel", "clear", "n", "thr")}})
     res["cex"] = res["cex"][:1]
     return res
 
@@ -322,7 +324,7 @@ def _setup_sampler(job, vals=None):
     rng = ForkRNG()
     cls = {"semi": SemiAdaptedKernel, "fully": FullyAdaptedKernel}[job["kernel"]]
     kernel = cls(td, rng, outlier_proposal_prob=0, perm_dist=RootPermutationDistribution())
-    sampler = ParticleGibbsTreeSampler(kernel, rng, num_particles=2, resample_threshold=0)
+    sampler = ParticleGibbsTreeSampler(kernel, rng, num_particles=2, resample_threshold=Fraction(job.get("thr") or "0") if vals is None else float(Fraction(job.get("thr") or "0")))
     return dps, td, sampler, a1, a2
 
 
@@ -341,7 +343,7 @@ def _sampler(res, job):
     n = job["n"]
     dps, td, sampler, a1, a2 = _setup_sampler(job)
     forests = [f for f in all_forests(n, outliers=False)]
-    starts = [forests[0], forests[-1]] if n == 2 else [forests[0]]
+    starts = forests if job.get("all_starts") else [forests[0], forests[-1]]
     sample = {}
 
     def run():
@@ -441,7 +443,7 @@ def evidence(tier, seed, results, canaries):
                            "two successive particle-Gibbs updates over every RNG outcome with the concentration changed in between, "
                            "with and without clear_proposal_dist_caches().",
             "functions_encoded": funcs, "obligations": obligations, "discharged": discharged,
-            "bounds": {"arrays": "3 symbolic 1x3 arrays, 13 calls, all orders of each window of 4 calls", "sampler": "n=2 (thorough: 3), N=2, semi- and fully-adapted, two updates"},
+            "bounds": {"arrays": "3 symbolic 1x3 arrays, 13 calls, all orders of each window of 4 calls", "sampler": "n=2, N=2, semi- and fully-adapted, two updates (thorough: every start forest, thresholds 0 and 1)"},
             "outside_bounds": ["LRU eviction at 1024/4096 entries", "xxh3 collisions", "bitwise float equality of reordered sums"],
             "evaluations": sum(r.get("histories", 0) for r in real), "distinct_nontrivial": sum(r.get("histories", 0) for r in real if r.get("hits", 0) > 0),
             "rule": "evaluations = call histories executed; non-trivial = histories of jobs in which at least one shadowed call was a cache hit",
